@@ -84,6 +84,8 @@ class Repo:
         self.overrides = overrides or {}
         self.modules: dict[str, Module] = {}
         self.derename = derename
+        self.inlined_helpers: list[str] = []
+        self.inline_bindings: list[tuple] = []
         self.renamed_units: list[str] = []  # functions analysed under their baseline local names (pure renames)
         self._load()
 
@@ -110,8 +112,15 @@ class Repo:
             except SyntaxError as e:  # pragma: no cover
                 raise AnalysisError(f"cannot parse {rel}: {e}") from e
             if self.derename:
-                from .derename import derename
+                from .derename import baseline, derename
+                from .inline import unextract
 
+                from . import inline as _inl
+
+                _inl.BINDINGS.clear()
+                for q in unextract(rel, tree, baseline()):
+                    self.inlined_helpers.append(f"{rel}::{q}")
+                self.inline_bindings.extend((rel,) + b for b in dict.fromkeys(_inl.BINDINGS))
                 for q in derename(rel, tree):
                     self.renamed_units.append(f"{rel}::{q}")
             name = rel[:-3].replace(os.sep, ".")
